@@ -449,6 +449,9 @@ func genRewriteBig(r *rng.R) corr.Case {
 		}
 	}
 	lines = append(lines, "bytes", "ru32", fmt.Sprintf("readn %d", n), "len")
+	if r.Chance(1, 2) {
+		lines = append(lines, "reset", "len", "wu16 513", "ru16", "len", "ru8")
+	}
 	return corr.Case{Tag: "rewrite-big", Lines: lines}
 }
 
@@ -486,8 +489,12 @@ func genBig(r *rng.R, tier string) corr.Case {
 	}
 	switch r.Intn(5) {
 	case 0, 1: // buffer
-		lines = append(lines, reads...)
-		lines = append(lines, "len", "ru8")
+		if r.Chance(1, 2) {
+			lines = append(lines, reads...)
+			lines = append(lines, "len", "ru8")
+		}
+		// the buffer has grown: Reset and reuse it
+		lines = append(lines, "reset", "len", "bytes", "wu32 67305985", "wstr 616263", "ru32", "rstr", "len", "ru8")
 		return corr.Case{Tag: "big-buffer", Lines: lines}
 	case 2: // cut points around the end of the big value
 		var out []string
@@ -610,6 +617,75 @@ func genSourceFail(r *rng.R) corr.Case {
 	return corr.Case{Tag: "source-fail", Lines: lines}
 }
 
+// genIncremental: a source that is fed over time (a connection, a pipe, a bytes.Buffer still being written): read until
+// the reader runs dry (clean EOF at a value boundary, or in the middle of a value), more bytes arrive, read again.
+func genIncremental(r *rng.R) corr.Case {
+	var ws, reads []string
+	for i := r.Range(2, 7); i > 0; i-- {
+		w := genWrite(r)
+		if strings.HasPrefix(w, "wv") {
+			w = "wu16 " + strconv.FormatUint(genU(r, 16), 10)
+		}
+		if wv, _ := parseWrite(strings.Fields(w)); wv.op == "wlstr" && uint64(wv.size) > uint64(wv.limit) {
+			continue
+		}
+		ws = append(ws, w)
+		reads = append(reads, readFor(r, w))
+	}
+	if len(ws) == 0 {
+		ws, reads = []string{"wu8 7"}, []string{"ru8"}
+	}
+	// cut the encoding into 2..4 batches: at value boundaries (clean EOF) or anywhere
+	var bounds []int
+	total := 0
+	for _, w := range ws {
+		total += len(encode([]string{w}))
+		bounds = append(bounds, total)
+	}
+	b := encode(ws)
+	var cuts []int
+	for i := r.Range(1, 3); i > 0; i-- {
+		if r.Chance(2, 3) {
+			cuts = append(cuts, bounds[r.Intn(len(bounds))])
+		} else {
+			cuts = append(cuts, r.Intn(len(b)+1))
+		}
+	}
+	cuts = append(cuts, len(b))
+	sortInts(cuts)
+	lines := []string{"sload " + r.Pick("0", "0", "1") + " " + chunk(r, b[:cuts[0]], r.Intn(3))}
+	prev := cuts[0]
+	ri := 0
+	for bi := 0; ; bi++ {
+		// read what should be there, and once more: the reader runs dry
+		for ri < len(reads) && (ri >= len(bounds) || bounds[ri] <= prev) {
+			lines = append(lines, reads[ri])
+			ri++
+		}
+		if ri < len(reads) {
+			lines = append(lines, reads[ri]) // runs into EOF / a short read
+			ri++
+		} else {
+			lines = append(lines, genRead(r, true))
+		}
+		if bi+1 >= len(cuts) {
+			break
+		}
+		lines = append(lines, "feed "+chunk(r, b[prev:cuts[bi+1]], r.Intn(3)))
+		prev = cuts[bi+1]
+	}
+	lines = append(lines, "feed "+showRawHex([]byte{7, 1, 2}), "ru8", "ru16", "ru8", "recheck")
+	return corr.Case{Tag: "incremental", Lines: lines}
+}
+
+func sortInts(a []int) {
+	for i := 1; i < len(a); i++ {
+		for j := i; j > 0 && a[j] < a[j-1]; j-- {
+			a[j], a[j-1] = a[j-1], a[j]
+		}
+	}
+}
+
 var junkTokens = []string{"", "x", "-", "--1", "-0", "00", "0x10", "1e3", "256", "65536", "4294967296", "18446744073709551616",
 	"99999999999999999999", "999999999999999999999", "-9223372036854775809", "-32769", "abc", "ABCD", "0g", "123", "+1", "1048577", "-1048577", ".", ","}
 
@@ -695,6 +771,17 @@ func fixedCases() []corr.Case {
 		c("big-fixed", "new", "wlstr 65536 p9:65536", "wu8 9", "tostream 0 r12345", "rlstr 65536", "ru8"),
 		c("big-fixed", "new", "wraw p10:200000", "tostream 1 r7", "readn 200000", "ru8"),
 		c("big-fixed", "tload 65539 wstr p11:65536", "rstr", "len", "tload 65540 wstr p11:65536", "rstr", "len"),
+		// Reset after the buffer has grown (past 64 KiB, past 1 MiB) and reuse; Reset of small / fresh / drained buffers
+		c("reset-fixed", "new", "wraw p1:70000", "reset", "len", "bytes", "wu8 7", "ru8", "len", "ru8"),
+		c("reset-fixed", "news 4096", "wstr p2:200000", "rstr", "reset", "len", "wu32 1", "wstr 6162", "ru32", "rstr", "len"),
+		c("reset-fixed", "new", "wraw p3:65536", "readn 65536", "reset", "len", "wraw p4:1048576", "reset", "len", "wu16 513", "ru16", "len"),
+		c("reset-fixed", "new", "reset", "len", "wu8 1", "reset", "len", "ru8", "news 0", "reset", "wu8 2", "ru8", "len"),
+		// incremental sources: the reader runs dry (clean EOF at a value boundary / inside a value), more bytes arrive
+		c("incremental-fixed", "sload 0 01000000", "ru32", "ru32", "feed 02000000", "ru32", "ru8", "feed 07", "ru8"),
+		c("incremental-fixed", "sload 0 .", "ru8", "feed 07", "ru8", "ru8", "feed -,08", "ru8"),
+		c("incremental-fixed", "sload 1 0300", "rstr", "feed 0000616263ff", "rstr", "ru16", "feed 0000", "ru16", "ru8"),
+		c("incremental-fixed", "sload 0 03000000", "rstr", "feed 616263", "rstr", "zreadn 3", "feed 00000000", "rstr", "recheck"),
+		c("incremental-fixed", "new", "wu8 1", "tostream 0 1", "ru8", "ru8", "feed 0200", "ru16", "rbool"),
 		// malformed varints through every ReadVar* of BufferX: never a value
 		c("varint-malformed-fixed", "load ffffffffffffffffffff07", "rvu64", "len", "load ffffffffffffffffffff07", "rvi64", "len",
 			"load ffffffffffffffffffff07", "rvu32", "len", "load ffffffffffffffffffff07", "rvi32", "len"),
@@ -797,6 +884,9 @@ func spec() corr.Spec {
 			if i%20 == 13 {
 				return genRetain(r)
 			}
+			if i%40 == 17 {
+				return genIncremental(r)
+			}
 			if i%40 == 7 {
 				return genVarintMalformed(r)
 			}
@@ -841,6 +931,8 @@ func spec() corr.Spec {
 			"(huge-value) single values of 1 MiB+1 .. 2 MiB in quick, 16 MiB+1 and 64 MiB+1 in thorough/search (`bigrt`), buffer and stream; (sentinels) the error variables are non-nil, distinct, with their texts; " +
 			"(varint-malformed) 0..20 continuation bytes (0xff.., 0x80..) with legal / too big / missing last byte through rvu64, rvi64, rvu32, rvi32; " +
 			"(source-fail) `sloadf`: the source fails with an I/O error after k bytes, k = every position inside the encoding of 1..3 values, several chunkings; " +
+			"(incremental) the source is fed over time (`feed`): read until the reader runs dry at a value boundary or inside a value, more bytes arrive, read again, 2..4 batches; " +
+			"(reset) Reset after the buffer has grown past 64 KiB / 1 MiB, then reuse; " +
 			"(retain) several raw / string fields in a row (0..9000 bytes, around 64 and 4096) from a buffer or a stream, every slice handed out looked at again by `recheck` and at the end of the script; " +
 			"(huge-prefix-probe, T) length fields 2^25..2^32-1 read by the real ReaderX in a memory-capped child process. Non-trivial = at least one read returned a value; distinct = distinct script text",
 		Assumptions: []string{
